@@ -271,7 +271,10 @@ func (x *TExec) opPeerConnect(st *TStep) {
 	t0 := time.Now()
 	pc, err := x.w.net.DialTCPFrom(src, target)
 	x.settle()
-	msgs, _, _ := drainFrames(c.ctrl, &c.rbuf)
+	var msgs []*ref.Msg
+	if !c.closed {
+		msgs, _, _ = drainFrames(c.ctrl, &c.rbuf)
+	}
 	var others int
 	for _, o := range x.w.clients {
 		if o != c && !o.closed {
